@@ -289,6 +289,29 @@ func c15LSCheck(c *C15LS, r *core.Rec) {
 	if !equalF(got, keep) {
 		r.Fail("lsq-result-overwritten", "%s: the returned parameters changed from %v to %v after later fits", tag, keep, got)
 	}
+	// History: the caller rewrites ys in place (tripled: the fit is linear in y) and fits the
+	// same slices again
+	{
+		ys3 := append([]float64{}, ys...)
+		first := fit.LinearLeastSquares(xs, ys3, ws, terms...)
+		for i := range ys3 {
+			ys3[i] *= 3
+		}
+		second := fit.LinearLeastSquares(xs, ys3, ws, terms...)
+		r.Trans(2)
+		if len(first) == len(second) {
+			for j := range first {
+				sc := math.Abs(keep[j]) + 1
+				for _, k := range keep {
+					sc = math.Max(sc, math.Abs(k))
+				}
+				if math.Abs(second[j]-3*first[j]) > (100*pr.cond*ref.Eps+1e-9)*sc {
+					r.Fail("lsq-rewritten-in-place", "%s: after ys was tripled in place the parameters are %v, before they were %v", tag, second, first)
+					break
+				}
+			}
+		}
+	}
 	var d int
 	if _, err := fmt.Sscanf(c.Basis, "poly%d", &d); err != nil {
 		return
